@@ -256,15 +256,18 @@ var c47Positions = []c47Pos{
 	{Name: "connection-label-bold", Mono: false, Src: func(q, _ string) string {
 		return "a -> b: " + q + " {style.bold: true; style.italic: false}\n"
 	}},
-	{Name: "arrowhead-label", Mono: false, Src: func(q, _ string) string {
-		return "a <-> b: {source-arrowhead: " + q + "; target-arrowhead.label: " + q + "}\n"
-	}},
-	{Name: "uml-class-member", Mono: true, Src: func(q, raw string) string {
-		return "a: {shape: class\n  " + q + ": " + q + "\n  " + dq(raw+"(x)") + ": " + q + "\n}\n"
-	}},
+	// one position per diagram text slot, so that a slot missing from the corpus cannot hide behind another
+	{Name: "arrowhead-label-source", Mono: false, Src: func(q, _ string) string { return "a <-> b: {source-arrowhead: " + q + "}\n" }},
+	{Name: "arrowhead-label-target", Mono: false, Src: func(q, _ string) string { return "a <-> b: {target-arrowhead.label: " + q + "}\n" }},
+	{Name: "uml-class-field-name", Mono: true, Src: func(q, _ string) string { return "a: {shape: class\n  " + q + ": int\n}\n" }},
+	{Name: "uml-class-field-type", Mono: true, Src: func(q, _ string) string { return "a: {shape: class\n  f: " + q + "\n}\n" }},
+	{Name: "uml-class-method-name", Mono: true, Src: func(_, raw string) string { return "a: {shape: class\n  " + dq(raw+"(x)") + ": void\n}\n" }},
+	{Name: "uml-class-method-return", Mono: true, Src: func(q, _ string) string { return "a: {shape: class\n  m(): " + q + "\n}\n" }},
 	{Name: "uml-class-header", Mono: true, Src: func(q, _ string) string { return "a: " + q + " {shape: class; f: int}\n" }},
-	{Name: "sql-column", Mono: false, Src: func(q, _ string) string {
-		return "a: {shape: sql_table\n  " + q + ": " + q + " {constraint: " + q + "}\n}\n"
+	{Name: "sql-column-name", Mono: false, Src: func(q, _ string) string { return "a: {shape: sql_table\n  " + q + ": int\n}\n" }},
+	{Name: "sql-column-type", Mono: false, Src: func(q, _ string) string { return "a: {shape: sql_table\n  c: " + q + "\n}\n" }},
+	{Name: "sql-column-constraint", Mono: false, Src: func(q, _ string) string {
+		return "a: {shape: sql_table\n  c: int {constraint: " + q + "}\n}\n"
 	}},
 	{Name: "sql-header", Mono: false, Src: func(q, _ string) string { return "a: " + q + " {shape: sql_table; id: int}\n" }},
 	{Name: "code-block", Mono: true, Src: func(_, raw string) string { return "a: |||go\n" + raw + "\n|||\n" }},
@@ -287,8 +290,11 @@ var c47Positions = []c47Pos{
 	{Name: "legend-title", Mono: false, Src: func(q, _ string) string {
 		return "vars: {d2-legend: " + q + " {\n  a: e {shape: circle}\n}}\nx -> y\n"
 	}},
-	{Name: "legend-entry", Mono: false, Src: func(q, _ string) string {
-		return "vars: {d2-legend: {\n  a: " + q + " {shape: circle}\n  a -> b: " + q + "\n}}\nx -> y\n"
+	{Name: "legend-shape-entry", Mono: false, Src: func(q, _ string) string {
+		return "vars: {d2-legend: {\n  a: " + q + " {shape: circle}\n}}\nx -> y\n"
+	}},
+	{Name: "legend-connection-entry", Mono: false, Src: func(q, _ string) string {
+		return "vars: {d2-legend: {\n  a -> b: " + q + "\n}}\nx -> y\n"
 	}},
 }
 
@@ -457,6 +463,9 @@ func c47Oracle(in string) eng.Res {
 				}
 				if !strings.ContainsRune(corpus, r) {
 					where = "corpus-omits-drawn-text:" + pos.Name
+					if pos.MD && strings.Contains(q.Text, "&") && !strings.ContainsRune(q.Text, r) {
+						where = "markdown-character-reference-resolved-after-corpus-collection"
+					}
 				}
 				res := eng.Bad("glyph-missing-from-subset:"+where,
 					fmt.Sprintf("U+%04X %q is drawn with %s (%s, full font has glyph %d) in run %q but the embedded subset has no glyph for it\nd2:\n%s", r, r, fam, s.full.name, fi, clipb([]byte(t.Text), 120), src))
@@ -592,6 +601,16 @@ func init() {
 								ev(c47In{Pos: p.Name, Text: c47Sample, Transform: tr, Terminal: term, Sketch: sk})
 							}
 						}
+					}
+				}
+			})
+			w.Phase("markdown positions x character references", func() {
+				for _, p := range c47Positions {
+					if !p.MD {
+						continue
+					}
+					for _, ref := range []string{"&copy;", "&eacute;", "&Omega;", "&hellip;", "&#937;", "&#x3A9;", "&amp;", "&lt;", "a&nbsp;b"} {
+						ev(c47In{Pos: p.Name, Text: ref})
 					}
 				}
 			})
